@@ -68,10 +68,10 @@ func genConfig(t *rapid.T, p *Profile) HConfig {
 		c.Single = 2
 	}
 	c.CheckEvery = pick(t, []int{1, 1, 1, 2, 3, 6}, "check_every")
-	c.DirStyle = pick(t, []int{0, 0, 0, 1, 2, 3}, "dir_style")
+	c.DirStyle = pick(t, []int{0, 0, 0, 0, 1, 2, 3, 4, 5, 6, 7, 8}, "dir_style")
 	c.WallClock = !p.RelTime && c.MonoTimes && uni(t, 6, "wall_clock") == 5
 	c.SubMicro = uni(t, 5, "sub_micro") == 4
-	c.LongKeys = !p.SmallKeys && uni(t, 5, "long_keys") == 4
+	c.LongKeys = uni(t, 5, "long_keys") == 4
 	c.SmallKeys = p.SmallKeys
 	c.RelTime = p.RelTime
 	return c
@@ -177,12 +177,19 @@ func (e *Env) genMsg(t *rapid.T, lastTS *int64) MsgIn {
 		in.ZeroTime = true
 	case e.Cfg.MonoTimes:
 		in.TS = *lastTS + int64(rapid.SampledFrom([]int{0, 0, 0, 1, 2}).Draw(t, "dt"))
+		if uni(t, 50, "far_future") == 49 {
+			// "any microsecond time": a jump far ahead (beyond what fits in int64 nanoseconds, year 2262), still monotone
+			if far := pick(t, []int64{1 << 40, 10000000000000000, 250000000000000000, 1 << 62}, "far_ts"); far > in.TS {
+				in.TS = far
+				e.St.Inc("messages_with_far_future_time")
+			}
+		}
 	default:
 		switch tk := uni(t, 30, "timekind"); {
 		case tk == 0 && !e.P.NoZeroTime:
 			in.ZeroTime = true
 		case tk == 1 && !e.Cfg.TimeIndex:
-			in.TS = rapid.SampledFrom([]int64{-5, 0, 1 << 40, -(1 << 40)}).Draw(t, "ts_extreme")
+			in.TS = rapid.SampledFrom([]int64{-5, 0, 1 << 40, -(1 << 40), 10000000000000000, 1 << 62}).Draw(t, "ts_extreme")
 		default:
 			in.TS = int64(1 + uni(t, 50, "ts"))
 		}
@@ -259,6 +266,14 @@ func (e *Env) genRmIdx(t *rapid.T) []string {
 		return out
 	}
 	return nil
+}
+
+// genFailAt: one Multi call in eight runs with a back-off that fails at its first, second or third call.
+func genFailAt(t *rapid.T, variant int) int {
+	if variant == 0 || uni(t, 8, "interrupt") != 7 {
+		return 0
+	}
+	return 1 + uni(t, 4, "fail_at")
 }
 
 func (e *Env) genVariant(t *rapid.T) int {
@@ -414,10 +429,27 @@ func (e *Env) GenOp(t *rapid.T) Op {
 		}
 		return op
 	case "delete":
-		return Op{Kind: "delete", Offsets: e.genDeleteOffsets(t), Variant: e.genVariant(t)}
+		op := Op{Kind: "delete", Offsets: e.genDeleteOffsets(t), Variant: e.genVariant(t)}
+		op.FailAt = genFailAt(t, op.Variant)
+		return op
 	case "reopen":
 		o := genOpts(t, e, e.Cfg, m.Mono, e.P)
-		return Op{Kind: "reopen", Opts: &o, RmIdx: e.genRmIdx(t)}
+		op := Op{Kind: "reopen", Opts: &o, RmIdx: e.genRmIdx(t)}
+		if uni(t, 8, "cold") == 7 {
+			removed := map[string]bool{}
+			for _, n := range op.RmIdx {
+				removed[n] = true
+			}
+			names, _ := listLogs(e.Dir)
+			for _, n := range names {
+				for _, f := range []string{n, strings.TrimSuffix(n, ".log") + ".index"} {
+					if !removed[f] && rapid.Bool().Draw(t, "link") {
+						op.Cold = append(op.Cold, f)
+					}
+				}
+			}
+		}
+		return op
 	case "gc":
 		return Op{Kind: "gc", N: int64(pick(t, []int{0, 0, 1000, -1, -200}, "gc_hours"))}
 	case "sync":
@@ -438,6 +470,10 @@ func (e *Env) GenOp(t *rapid.T) Op {
 		case "age":
 			op.N = e.genTimeBound(t)
 		}
+		op.FailAt = genFailAt(t, op.Variant)
+		if op.Sub == "age" && e.Cfg.SubMicro {
+			op.Nanos = pick(t, []int{0, 1, 300, 499, 500, 501, 700, 999}, "nanos")
+		}
 		if op.Sub != "age" && uni(t, 10, "far_bound") == 9 {
 			// bounds far above the live range, up to the largest value of the argument's type
 			op.N = pick(t, []int64{m.Next + 1000, 1 << 31, 1<<31 + 1, 1 << 40, math.MaxInt64 - 1, math.MaxInt64}, "far")
@@ -454,6 +490,10 @@ func (e *Env) GenOp(t *rapid.T) Op {
 			op.N = int64(uni(t, 41, "age_j"))*hourUS + hourUS/2
 		} else {
 			op.N = e.genTimeBound(t)
+			op.FailAt = genFailAt(t, op.Variant)
+			if e.Cfg.SubMicro {
+				op.Nanos = pick(t, []int{0, 1, 300, 499, 500, 501, 700, 999}, "nanos")
+			}
 		}
 		return op
 	case "migrate":
@@ -466,6 +506,7 @@ func (e *Env) GenOp(t *rapid.T) Op {
 		return Op{Kind: "pkg", Sub: pick(t, []string{"recover", "check", "stat"}, "pkg_op")}
 	case "backup":
 		op := Op{Kind: "backup", Variant: pick(t, []int{0, 0, 1, 2}, "pkg_level"), Fresh: uni(t, 4, "fresh") == 3}
+		op.Wipe = e.bkLast != "" && op.Variant != 2 && uni(t, 5, "wipe") == 4
 		if op.Variant == 2 {
 			op.RmIdx = e.genRmIdx(t)
 		}
